@@ -12,7 +12,7 @@ SumT(s) == LET F(acc, i) == acc + Ticks(VA[i]) IN FoldLeft(F, 0, s)
 Fills(len) == {s \in SeqsUpTo(5) : SumT(s) = len}
 F44 == Fills(L)
 F34 == Fills((3 * L) \div 4)
-FillsOf(m) == IF m = <<4,4>> THEN F44 ELSE F34
+FillsOf(m) == IF m \in {<<4,4>>, <<2,2>>, <<8,8>>} THEN F44 ELSE F34      \* 2/2 and 8/8 are as long as 4/4; 6/8 as long as 3/4
 Pal(ch) == << <<>>, <<[n |-> <<"C">>, o |-> 4, ch |-> ch, vel |-> 64]>>, <<[n |-> <<"E","b">>, o |-> 3, ch |-> ch, vel |-> 100], [n |-> <<"G">>, o |-> 4, ch |-> ch, vel |-> 1]>>,
             <<[n |-> <<"F","#">>, o |-> 5, ch |-> ch, vel |-> 127]>>, <<>>, <<[n |-> <<"A">>, o |-> 2, ch |-> ch, vel |-> 90], [n |-> <<"C","#">>, o |-> 4, ch |-> ch, vel |-> 64], [n |-> <<"B">>, o |-> 5, ch |-> ch, vel |-> 0]>> >>
 EntryOf(vi, ch, k, pat, withBpm) == LET c == Pal(ch)[((k * pat + pat) % 6) + 1] IN
@@ -26,7 +26,7 @@ InstrOf(ip, v, nr) == CASE ip = 0 -> (IF v = 2 THEN [kind |-> "midi", nr |-> nr]
                         [] ip = 2 -> (IF v = 1 THEN [kind |-> "midi", nr |-> nr] ELSE IF v = 2 THEN [kind |-> "piano", nr |-> 0] ELSE NoI)
                         [] ip = 3 -> [kind |-> "midi", nr |-> (nr + 7 * (v - 1)) % 128]
                         [] OTHER -> (IF v = 1 THEN [kind |-> "piano", nr |-> 0] ELSE [kind |-> "midi", nr |-> nr])
-Init == /\ \E nv \in 1..MaxVoices, nb \in 1..MaxBars, bpm \in {120, 60, 200}, same \in BOOLEAN, nr \in {0, 33, 127, 6}, ip \in 0..4 : \E ms \in [1..nb -> {<<4,4>>, <<3,4>>}] :
+Init == /\ \E nv \in 1..MaxVoices, nb \in 1..MaxBars, bpm \in {120, 60, 200}, same \in BOOLEAN, nr \in {0, 33, 127, 6}, ip \in 0..4 : \E ms \in [1..nb -> {<<4,4>>, <<3,4>>, <<6,8>>, <<2,2>>, <<8,8>>}] :
              prog = [bpm |-> bpm, repeat |-> 0, nv |-> nv, meters |-> ms, same |-> same, fills |-> <<>>,
                      tracks |-> [v \in 1..nv |-> [name |-> <<86, 48 + v>>, instr |-> InstrOf(ip, v, nr), bars |-> <<>>]]]
         /\ cell = <<1, 1>> /\ done = FALSE
